@@ -225,6 +225,32 @@ CHECKS = {
         note='Fake layers stand in for USB, sockets and serial ports; the prrt driver is claimed-but-unavailable in this sandbox.',
         technique='reference-parser oracle + settings monitor at a fake USB device + driver-dispatch census',
         engine='detsched+radiosim', design='DESIGN.md §3 C20'),
+    'C17': dict(
+        level='exploration',
+        text=('Generated programs of up to 10 motion primitives (all directions, move_distance, turns, circles, start_*/stop '
+              'with dwell, go_to, default changes) run through the real MotionCommander (with its _SetPointThread) and '
+              'PositionHlCommander under the deterministic scheduler in virtual time on a recording stub Crazyflie, as context '
+              'manager or explicit take_off/land, with or without an exception raised at a random position of the body, under '
+              'three schedules each. Monitors: last commander calls are stop then notify-stop (HL: land then stop), nothing '
+              'streamed for 5 further virtual seconds, setpoint thread terminated; hover setpoints at most one period apart, '
+              'their velocity equal to the commanded timeline and their height equal to the integral of the commanded vertical '
+              'velocity (1e-9); integrated commanded velocity x duration == requested displacement / angle per primitive; HL '
+              'position == start + sum of displacements and every go_to / take-off / land argument against a reference.'),
+        note='Virtual time makes instants exact; programs stay above the landing height (physical flights).',
+        technique='virtual-time trace checker over recorded commander calls against a reference motion model',
+        engine='detsched', design='DESIGN.md §3 C17'),
+    'C19': dict(
+        level='exploration',
+        text=('The real Swarm runs its member threads under the deterministic scheduler with an instrumented member factory: '
+              'for sizes 1..6, ALL subsets of members whose action raises (n<=5) and ALL subsets whose open_link fails (n<=4), '
+              'random argument dictionaries and actions that yield at random points, 16/64 schedules per configuration. '
+              'Monitors: each action once per member with that member and its own arguments; sequential in URI order with '
+              'disjoint intervals; parallel_safe returns after every action ended, raises iff one raised and chains one of the '
+              'raised errors; parallel never raises; failed open closes every link, raises and leaves the swarm closed; second '
+              'open raises. A subset uses real SyncCrazyflie members over sim:// links incl. an unreachable one.'),
+        note='Failure subsets exhaustive to the stated sizes; schedules sampled.',
+        technique='call-log checker (exactly-once, ordering, error chaining) over enumerated failure subsets under a deterministic scheduler',
+        engine='detsched', design='DESIGN.md §3 C19'),
 }
 
 PENDING_REASON = ('check not built yet in this work session (design in DESIGN.md §3); nothing is claimed for it '
@@ -275,6 +301,8 @@ def manifest():
              'kind_free_text': 'room / pose generators with ground truth and independent numpy reference computations'},
             {'name': 'detsched+radiosim', 'path': 'vf/detsched.py, vf/radiosim.py', 'serves_properties': ['C01', 'C20'],
              'kind_free_text': 'deterministic scheduler + ESB safelink peer model + fake Crazyradio USB device'},
+            {'name': 'detsched', 'path': 'vf/detsched.py', 'serves_properties': ['C17', 'C19'],
+             'kind_free_text': 'deterministic scheduler + virtual clock over the helpers\' real threads, recording stubs'},
             {'name': 'pump', 'path': 'vf/checks/c07.py', 'serves_properties': ['C07'],
              'kind_free_text': 'the dispatcher loop run in the harness thread over a scripted link (no scheduler)'},
             {'name': 'detsched+simcf', 'path': 'vf/detsched.py, vf/simcf.py, vf/simlink.py',
